@@ -429,23 +429,19 @@ open TorrentVerif TorrentVerif.E2E TorrentVerif.Ex.G7
     `total` is the number of bytes of the tree; with `align` on a directory it is the length
     of the piece-aligned stream (every file followed by its padding), which the padding
     entries of `files` add to the payload.
-    With `align` two side conditions about a directory entry literally named `.pad` (the
-    directory the padding entries `.pad/<n>` point into) are still assumed here; both were
-    necessary before the repairs d2b4fef / 65351cc of `recheck.py` and are redundant since
-    (see `pad_dir_is_never_read`, `pad_in_namesake_resolves`):
-    `hpad` — the tree has no top-level entry `.pad` (a padding entry could name a real file;
-    the checker no longer reads it);
-    `hpadInner` (root argument only) — an entry of the tree named like the torrent has no entry
-    `.pad` (padding entries no longer count among the described top-level names). -/
+    Nothing is assumed about entries literally named `.pad` (the directory the padding entries
+    `.pad/<n>` of an aligned metafile point into): since the repairs d2b4fef / 65351cc of
+    `recheck.py` a padding entry is never looked up on disk — it is zeros whatever sits at its
+    path — and does not count among the described top-level names, so a tree that really
+    contains `.pad/<n>` files, at the top or below an entry named like the torrent, is
+    rechecked like any other (see `pad_dir_is_never_read`, `pad_in_namesake_resolves` for the
+    two trees that failed before the repairs). -/
 theorem recheck_of_created_v1 (o : CreateOpts) (align : Bool) (H1 H : Bytes → Bytes) (B hs : Nat)
     (hhs : 0 < hs) (hH1 : ∀ x, (H1 x).length = 20)
     (enum : List (List (Bytes × Bytes)) → List (List (Bytes × Bytes)))
     (henum : ∀ l, (enum l).Perm l) (pre : Bytes) (t : Node)
     (hwn : Spec.WellNamed t) (hplain : PlainNamed t) (hpl : 0 < o.pieceLength)
-    (hbytes : 0 < treeBytes t)
-    (hpad : align = true → RF.child t Impl.sPad = none)
-    (hpadInner : align = true →
-      ∀ inner, RF.child t o.name = some inner → RF.child inner Impl.sPad = none) :
+    (hbytes : 0 < treeBytes t) :
     ∃ r b total, Impl.createV1 o align H1 enum pre t = some (r, b) ∧
       0 < total ∧ treeBytes t ≤ total ∧
       (align = false ∨ (∃ d, t = .file d) → total = treeBytes t) ∧
@@ -480,11 +476,11 @@ theorem recheck_of_created_v1 (o : CreateOpts) (align : Bool) (H1 H : Bytes → 
       · exact v1Stream_length_plain o.pieceLength pre (.dir es)
       · cases e
     · intro es' _ hal; rw [hal]; rfl
-    · exact recheck_created_v1_dir o align H1 H B hs hhs hH1 enum henum pre es hwn hplain hpl hpad
-        r b h _ (Or.inl ⟨rfl, rfl⟩) (fun _ => hpadInner)
+    · exact recheck_created_v1_dir o align H1 H B hs hhs hH1 enum henum pre es hwn hplain hpl
+        r b h _ (Or.inl ⟨rfl, rfl⟩)
     · intro pname hp
-      exact recheck_created_v1_dir o align H1 H B hs hhs hH1 enum henum pre es hwn hplain hpl hpad
-        r b h _ (Or.inr ⟨rfl, hp⟩) (fun hk => by cases hk)
+      exact recheck_created_v1_dir o align H1 H B hs hhs hH1 enum henum pre es hwn hplain hpl
+        r b h _ (Or.inr ⟨rfl, hp⟩)
 
 /-- met by: the example tree `r` (nested, stored unsorted, an empty file, an empty directory,
     15 bytes, piece length 4), rooted at `/d`, enumerated backwards, toy SHA-1 with 20-byte
@@ -497,14 +493,13 @@ example : ∃ r b, Impl.createV1 exOpts false Toy.toyH20 List.reverse [100] exTr
   obtain ⟨r, b, total, h, _, _, htot, _, hroot, hpar⟩ := recheck_of_created_v1 exOpts false
     Toy.toyH20 Toy.toyH 2 1 (by decide) (by intro x; simp [Toy.toyH20]) List.reverse
     List.reverse_perm [100] exTree exTree_wellNamed exTree_plainNamed (by decide)
-    (by rw [exTree_bytes]; decide) (fun e => by cases e) (fun e => by cases e)
+    (by rw [exTree_bytes]; decide)
   have ht : total = 15 := by rw [htot (Or.inl rfl), exTree_bytes]
   subst ht
   exact ⟨r, b, h, hroot, hpar [104] (by decide)⟩
 
-/-- the same tree piece-aligned (the tree has no `.pad` entry and no entry named `r`): the
-    payload grows to the 20 bytes of the aligned stream, all of which verify; and a single
-    file of 9 bytes with `align` requested: 9 of 9 -/
+/-- the same tree piece-aligned: the payload grows to the 20 bytes of the aligned stream, all of
+    which verify; and a single file of 9 bytes with `align` requested: 9 of 9 -/
 example : (∃ r b total, Impl.createV1 exOpts true Toy.toyH20 id [100] exTree = some (r, b) ∧
       15 ≤ total ∧
       ∃ vs, Impl.recheck Toy.toyH20 Toy.toyH 2 1 b ⟨.root, [114]⟩ exTree = .ok (vs, total, total) ∧
@@ -516,24 +511,52 @@ example : (∃ r b total, Impl.createV1 exOpts true Toy.toyH20 id [100] exTree =
   · obtain ⟨r, b, total, h, _, hge, _, _, hroot, _⟩ := recheck_of_created_v1 exOpts true
       Toy.toyH20 Toy.toyH 2 1 (by decide) (by intro x; simp [Toy.toyH20]) id (fun _ => .refl _)
       [100] exTree exTree_wellNamed exTree_plainNamed (by decide) (by rw [exTree_bytes]; decide)
-      (fun _ => exTree_no_pad) (fun _ inner hi => by rw [exTree_no_namesake] at hi; cases hi)
     rw [exTree_bytes] at hge
     exact ⟨r, b, total, h, hge, hroot⟩
   · obtain ⟨r, b, total, h, _, _, htot, _, hroot, _⟩ := recheck_of_created_v1 exOpts true
       Toy.toyH20 Toy.toyH 2 1 (by decide) (by intro x; simp [Toy.toyH20]) id (fun _ => .refl _)
-      [100] exFile trivial trivial (by decide) (by decide) (fun _ => rfl)
-      (fun _ inner hi => by cases hi)
+      [100] exFile trivial trivial (by decide) (by decide)
     have ht : total = 9 := by rw [htot (Or.inr ⟨_, rfl⟩)]; decide
     subst ht
     exact ⟨r, b, h, hroot⟩
 
-/-- The former witness for `hpad` is resolved (repair d2b4fef: a padding entry is never read
+/-- met by trees that really contain `.pad` entries, piece-aligned, piece length 4:
+    `r/{.pad/1 (one byte), a (three bytes)}` — the padding entry written after `a` is `.pad/1`,
+    the path of the real file — gives 8 of 8 bytes (4 payload + 4 padding) through the root and
+    through a parent `h`; `r/{a, r/{.pad, a, r}}` — an entry named like the torrent that holds a
+    `.pad` of its own — gives all of its aligned stream through the root -/
+example : (∃ r b, Impl.createV1 Ex.plainOpts true Toy.toyH20 id [114] Ex.padTree = some (r, b) ∧
+      (∃ vs, Impl.recheck Toy.toyH20 Toy.toyH 2 1 b ⟨.root, [114]⟩ Ex.padTree = .ok (vs, 8, 8) ∧
+        ∀ v ∈ vs, v.1 = true) ∧
+      (∃ vs, Impl.recheck Toy.toyH20 Toy.toyH 2 1 b ⟨.parent, [104]⟩ Ex.padTree = .ok (vs, 8, 8) ∧
+        ∀ v ∈ vs, v.1 = true)) ∧
+    (∃ r b total, Impl.createV1 Ex.plainOpts true Toy.toyH20 id [114] Ex.innerTree = some (r, b) ∧
+      8 ≤ total ∧
+      ∃ vs, Impl.recheck Toy.toyH20 Toy.toyH 2 1 b ⟨.root, [114]⟩ Ex.innerTree
+          = .ok (vs, total, total) ∧ ∀ v ∈ vs, v.1 = true) := by
+  constructor
+  · obtain ⟨r, b, total, h, _, _, _, htot, hroot, hpar⟩ := recheck_of_created_v1 Ex.plainOpts true
+      Toy.toyH20 Toy.toyH 2 1 (by decide) (by intro x; simp [Toy.toyH20]) id (fun _ => .refl _)
+      [114] Ex.padTree Ex.padTree_wellNamed Ex.padTree_plainNamed (by decide) (by decide)
+    have hs : Spec.sortedFiles [114] Ex.padTree = Spec.allFiles [114] Ex.padTree := by
+      unfold Spec.sortedFiles; exact List.mergeSort_of_pairwise (by decide)
+    have ht : total = 8 := by rw [htot _ rfl rfl, hs]; decide
+    subst ht
+    exact ⟨r, b, h, hroot, hpar [104] (by decide)⟩
+  · obtain ⟨r, b, total, h, _, hge, _, _, hroot, _⟩ := recheck_of_created_v1 Ex.plainOpts true
+      Toy.toyH20 Toy.toyH 2 1 (by decide) (by intro x; simp [Toy.toyH20]) id (fun _ => .refl _)
+      [114] Ex.innerTree Ex.innerTree_wellNamed Ex.innerTree_plainNamed (by decide) (by decide)
+    have hb : treeBytes Ex.innerTree = 8 := by decide
+    rw [hb] at hge
+    exact ⟨r, b, total, h, hge, hroot⟩
+
+/-- The former witness for a side condition `hpad` ("no top-level `.pad`") is resolved (repair d2b4fef: a padding entry is never read
     from disk; the real `TorrentFile(align=True)` + `Checker` agree: 100 %).  The tree `r` holds
     `.pad/1` (one byte) and `a` (three bytes), piece length 4.  The padding entry written after
     `a` is `.pad/1` — the path of the real file.  Before the repair the checker read that file's
     byte where the hasher put a zero (4 of 8 bytes); now the padding entry is zeros whatever
     sits at its path, the real file `.pad/1` is still read for its own entry, and all 8 bytes
-    verify.  (`hpad` of `recheck_of_created_v1` is therefore no longer necessary.) -/
+    verify.  (`recheck_of_created_v1` no longer assumes anything about `.pad`.) -/
 theorem pad_dir_is_never_read :
     ∃ (o : CreateOpts) (t : Node) (r : BVal) (b : Bytes),
       Spec.WellNamed t ∧ PlainNamed t ∧ 0 < o.pieceLength ∧ 0 < treeBytes t ∧
@@ -550,7 +573,8 @@ example : Spec.fileBytes Ex.padTree [Impl.sPad, natDec (gap 4 3)] = some [7] ∧
     Spec.v1Disk Ex.padTree ([Impl.sPad, natDec (gap 4 3)], 1, RF.padMark) = none := by
   decide +kernel
 
-/-- The former witness for `hpadInner` is resolved (repair 65351cc: padding entries do not count
+/-- The former witness for a side condition `hpadInner` ("no `.pad` below the entry named like
+    the torrent") is resolved (repair 65351cc: padding entries do not count
     among the described top-level names; the real tool agrees: 100 %).  The tree `r` holds `a`
     and a directory `r` with `.pad`, `a`, `r`; piece-aligned.  The described top-level names
     are now `a` and `r` only: both exist in the payload and in its entry `r` — a tie — so
@@ -644,11 +668,10 @@ example : (∃ r b, Impl.createV2Class exOpts Toy.toyH 2 1 List.reverse exTree =
     20-byte digests), directory or single file: the same statement — a hybrid metafile is
     rechecked through its v2 part, so `total` is the number of bytes of the tree (the padding
     entries of `files` do not count).
-    One more side condition, for the root argument only, is still assumed — `hpadInner`: an
-    entry of the tree named like the torrent has no entry named `.pad`.  It was necessary while
-    `_is_parent` counted `.pad` (from the padding entries of `files`) among the described
-    top-level names; since repair 65351cc padding entries do not count and it is redundant
-    (see `pad_in_namesake_resolves`). -/
+    Nothing is assumed about entries named `.pad`: since repair 65351cc `_is_parent` does not
+    count the padding entries of `files` among the described top-level names, so an entry of
+    the tree named like the torrent may hold a `.pad` of its own (the tree of
+    `pad_in_namesake_resolves`; before the repair the root argument gave 3 of 8 bytes on it). -/
 theorem recheck_of_created_hybrid (o : CreateOpts) (H1 H : Bytes → Bytes) (B hs j : Nat)
     (hhs : 0 < hs) (hH : ∀ x, (H x).length = hs) (hB : 0 < B) (hpl : o.pieceLength = 2 ^ j * B)
     (enum : List (Bytes × Impl.FTree) → List (Bytes × Impl.FTree)) (henum : ∀ l, (enum l).Perm l)
@@ -658,8 +681,7 @@ theorem recheck_of_created_hybrid (o : CreateOpts) (H1 H : Bytes → Bytes) (B h
       2 ^ j * B < x.2.length → 2 ^ j * B < y.2.length →
       Spec.root H B hs x.2 = Spec.root H B hs y.2 →
       (Spec.pieceLayer H B hs j x.2).flatten = (Spec.pieceLayer H B hs j y.2).flatten)
-    (hbytes : 0 < treeBytes t)
-    (hpadInner : ∀ inner, RF.child t o.name = some inner → RF.child inner Impl.sPad = none) :
+    (hbytes : 0 < treeBytes t) :
     ∃ r b, Impl.createHybridClass o H H1 B hs enum t = some (r, b) ∧
       ((∀ x, (H1 x).length = 20) → Impl.createAsm true o H H1 B hs enum t = some (r, b)) ∧
       (∃ vs, Impl.recheck H1 H B hs b ⟨.root, o.name⟩ t = .ok (vs, treeBytes t, treeBytes t) ∧
@@ -673,12 +695,12 @@ theorem recheck_of_created_hybrid (o : CreateOpts) (H1 H : Bytes → Bytes) (B h
   · intro h20
     rw [createAsm_true_eq o H H1 B hs (2 ^ j) hB (Nat.two_pow_pos j) hpl h20]; exact h
   · exact recheck_created_hybrid o H1 H B hs (2 ^ j) hhs hH hB (Nat.two_pow_pos j) hpl enum henum t
-      hwn hplain hname hc hbytes r b h _ (Or.inl ⟨rfl, rfl⟩) (fun _ => hpadInner)
+      hwn hplain hname hc hbytes r b h _ (Or.inl ⟨rfl, rfl⟩)
   · intro pname hp
     exact recheck_created_hybrid o H1 H B hs (2 ^ j) hhs hH hB (Nat.two_pow_pos j) hpl enum henum t
-      hwn hplain hname hc hbytes r b h _ (Or.inr ⟨rfl, hp⟩) (fun hk => by cases hk)
+      hwn hplain hname hc hbytes r b h _ (Or.inr ⟨rfl, hp⟩)
 
-/-- met by: the example tree (it has no entry named `r`), both hybrid creators, toy hashes with
+/-- met by: the example tree, both hybrid creators, toy hashes with
     1- and 20-byte digests: 15 of 15 bytes (the 5 padding bytes of the v1 part do not count) -/
 example : ∃ r b, Impl.createHybridClass exOpts Toy.toyH Toy.toyH20 2 1 id exTree = some (r, b) ∧
     Impl.createAsm true exOpts Toy.toyH Toy.toyH20 2 1 id exTree = some (r, b) ∧
@@ -690,9 +712,27 @@ example : ∃ r b, Impl.createHybridClass exOpts Toy.toyH Toy.toyH20 2 1 id exTr
     (by decide) (by intro x; simp [Toy.toyH]) (by decide) rfl id (fun _ => .refl _)
     exTree exTree_wellNamed exTree_plainNamed (fun d e => by cases e)
     (exTree_hcoll Toy.toyH 2 1 1) (by rw [exTree_bytes]; decide)
-    (fun inner hi => by rw [exTree_no_namesake] at hi; cases hi)
   rw [exTree_bytes] at hroot hpar
   exact ⟨r, b, h1, h2 (by intro x; simp [Toy.toyH20]), hroot, hpar [104] (by decide)⟩
+
+/-- met by the tree `r/{a, r/{.pad, a, r}}` — an entry named like the torrent holding a `.pad`
+    of its own (no file has more than one piece, so `hcoll` is vacuous): 8 of 8 bytes through
+    the root -/
+example : ∃ r b, Impl.createHybridClass Ex.plainOpts Toy.toyH Toy.toyH20 2 1 id Ex.innerTree
+      = some (r, b) ∧
+    ∃ vs, Impl.recheck Toy.toyH20 Toy.toyH 2 1 b ⟨.root, [114]⟩ Ex.innerTree = .ok (vs, 8, 8) ∧
+      ∀ v ∈ vs, v.1 = true := by
+  obtain ⟨r, b, h1, _, hroot, _⟩ := recheck_of_created_hybrid Ex.plainOpts Toy.toyH20 Toy.toyH 2 1 1
+    (by decide) (by intro x; simp [Toy.toyH]) (by decide) rfl id (fun _ => .refl _)
+    Ex.innerTree Ex.innerTree_wellNamed Ex.innerTree_plainNamed (fun d e => by cases e)
+    (by intro x hx y hy hxl _ _
+        simp only [Ex.innerTree, Spec.allFiles, Spec.allFilesList, List.append_nil, List.mem_cons,
+          List.mem_append, List.not_mem_nil, or_false] at hx
+        rcases hx with rfl | rfl | rfl | rfl <;> simp at hxl)
+    (by decide)
+  have hb : treeBytes Ex.innerTree = 8 := by decide
+  rw [hb] at hroot
+  exact ⟨r, b, h1, hroot⟩
 
 /-- An edit never changes what recheck reports.  For EVERY byte string `b` that pyben decodes
     (own or foreign encoder, any key order, any version, intact or damaged content, well-formed
